@@ -1255,6 +1255,12 @@ func c11Exec(scAny any, c *simcheck.Ctx) *simcheck.Violation {
 				// version exists): "at or below" with nothing left. Only queries that can
 				// lower the project may do that.
 				lowering := query != "upgrade" && query != "patch" && !(query != "" && query[0] == '>')
+				// ... and so may any query that resolves below the version selected now (a
+				// lower bound met only by tags older than the pseudo-version in use): dawn
+				// resolves the query to one version first and then moves the project to it
+				if r := sc.resolveQuery(qpath, query); had && r != "" && semver.Compare(r, ov) < 0 {
+					lowering = true
+				}
 				if had && lowering {
 					c.St.Count("downgraded_to_none", 1)
 					root, oldBL = newRoot, newBL
